@@ -253,6 +253,7 @@ func runInBubble(c *mc.Ctx, p params) {
 	}
 
 	errBudget := p.Errors
+	stickyNotFound := map[string]int{} // header argument -> further attempts the node answers "not found" for
 	lastTipAnswer := int64(-1)
 	horizon := 400
 	for step := 0; ; step++ {
@@ -301,20 +302,36 @@ func runInBubble(c *mc.Ctx, p params) {
 			chain.Finalized += uint64(c.Choose(room+1, "finalized-advance-at-poll"))
 		}
 		dir := act.Directive{}
+		if g.Op == "HeaderByNumber" && stickyNotFound[g.Arg] > 0 {
+			// the node still does not know this header (an earlier choice made it unknown for several attempts in a row)
+			stickyNotFound[g.Arg]--
+			if isWait {
+				lastTipAnswer = prevWaitAnswer
+			}
+			c.Transition(1)
+			sched.Release(g, act.Directive{Err: fmt.Errorf("verif: %w", ethereum.NotFound)})
+			continue
+		}
 		if ek := 0; errBudget > 0 {
 			// 1 = an opaque transport error, 2 = the RPC client's own per-call time-out (wraps context.DeadlineExceeded
 			// although the syncer's context is alive)
 			nk := 3
 			if g.Op == "HeaderByNumber" && g.Arg != "latest" && g.Arg != "finalized" && g.Arg != "safe" {
-				nk = 4 // 3 = "not found" for a header asked by number (the downloader waits: the block may have disappeared in a reorg)
+				// 3 = "not found" for a header asked by number (the downloader waits: the block may have disappeared in a
+				// reorg); 4 = the same answer for this and the next 7 attempts for that header (a lagging RPC backend)
+				nk = 5 //nolint:mnd
 			}
 			ek = c.Choose(nk, "transient-rpc-error")
 			if ek > 0 {
 				errBudget--
 				dir.Err = errTransient
-				if ek == 3 {
+				if ek == 3 || ek == 4 {
 					dir.Err = fmt.Errorf("verif: %w", ethereum.NotFound)
 					c.Witness("rpc_not_found_injected")
+				}
+				if ek == 4 { //nolint:mnd
+					stickyNotFound[g.Arg] = 7 //nolint:mnd
+					c.Witness("rpc_not_found_for_eight_attempts_in_a_row")
 				}
 				if ek == 2 {
 					dir.Err = fmt.Errorf("verif: rpc call timed out: %w", context.DeadlineExceeded)
